@@ -13,6 +13,7 @@ import (
 	"encoding/base64"
 	"fmt"
 	"hash"
+	"math/big"
 	"strings"
 )
 
@@ -86,6 +87,11 @@ type EncSpec struct {
 	// PlainPrefix is written in front of the serialised assertion before it is encrypted (a byte order mark, an
 	// XML declaration, white space, a comment).
 	PlainPrefix string
+	// Hints names a certificate by the other means ds:KeyInfo offers (X509SubjectName, X509IssuerSerial, X509SKI,
+	// KeyName, KeyValue) next to - or, without Recipient, instead of - the X509Certificate; HintsFirst puts them
+	// in front of it. They identify nobody to a reader that compares certificates.
+	Hints      *Cert
+	HintsFirst bool
 }
 
 func (e *EncSpec) String() string {
@@ -269,8 +275,29 @@ func encryptedKeyXML(spec *EncSpec, keyB64 string) string {
 	} else if spec.Recipient != nil {
 		recip = base64.StdEncoding.EncodeToString(spec.Recipient.DER)
 	}
-	if recip != "" || spec.RecipRaw != nil {
-		ek.WriteString(`<` + d + `KeyInfo` + ddecl + `><` + d + `X509Data><` + d + `X509Certificate>` + recip + `</` + d + `X509Certificate></` + d + `X509Data></` + d + `KeyInfo>`)
+	if recip != "" || spec.RecipRaw != nil || spec.Hints != nil {
+		certEl := ""
+		if recip != "" || spec.RecipRaw != nil {
+			certEl = `<` + d + `X509Certificate>` + recip + `</` + d + `X509Certificate>`
+		}
+		inData, outside := "", ""
+		if h := spec.Hints; h != nil {
+			ski := sha1.Sum(h.X509.RawSubjectPublicKeyInfo)
+			inData = `<` + d + `X509SubjectName>` + attrEsc(h.X509.Subject.String()) + `</` + d + `X509SubjectName>` +
+				`<` + d + `X509IssuerSerial><` + d + `X509IssuerName>` + attrEsc(h.X509.Issuer.String()) + `</` + d + `X509IssuerName><` + d + `X509SerialNumber>` + h.X509.SerialNumber.String() + `</` + d + `X509SerialNumber></` + d + `X509IssuerSerial>` +
+				`<` + d + `X509SKI>` + base64.StdEncoding.EncodeToString(ski[:]) + `</` + d + `X509SKI>`
+			outside = `<` + d + `KeyName>` + attrEsc(h.X509.Subject.String()) + `</` + d + `KeyName>`
+			if pub, ok := h.X509.PublicKey.(*rsa.PublicKey); ok {
+				outside += `<` + d + `KeyValue><` + d + `RSAKeyValue><` + d + `Modulus>` + base64.StdEncoding.EncodeToString(pub.N.Bytes()) + `</` + d + `Modulus><` + d + `Exponent>` + base64.StdEncoding.EncodeToString(big.NewInt(int64(pub.E)).Bytes()) + `</` + d + `Exponent></` + d + `RSAKeyValue></` + d + `KeyValue>`
+			}
+		}
+		ek.WriteString(`<` + d + `KeyInfo` + ddecl + `>`)
+		if spec.HintsFirst {
+			ek.WriteString(outside + `<` + d + `X509Data>` + inData + certEl + `</` + d + `X509Data>`)
+		} else {
+			ek.WriteString(`<` + d + `X509Data>` + certEl + inData + `</` + d + `X509Data>` + outside)
+		}
+		ek.WriteString(`</` + d + `KeyInfo>`)
 	}
 	ek.WriteString(`<` + x + `CipherData><` + x + `CipherValue>` + keyB64 + `</` + x + `CipherValue></` + x + `CipherData>`)
 	ek.WriteString(`</` + x + `EncryptedKey>`)
